@@ -61,6 +61,8 @@ def mstr(v):
     v = float(v)
     if math.isnan(v):
         return "nan"
+    if math.isinf(v):
+        return "inf" if v > 0 else "-inf"   # (monitor-only cases: the model's metrics are rationals or NaN)
     r = _MSTR.get(v)
     if r is None:
         if len(_MSTR) > 200000:
@@ -406,6 +408,8 @@ def run_scheduler(spec):
             v = sign * metric_value(spec["seed"], tid, r, style)
             if script is None and rng.random() < spec.get("p_nan", 0):
                 v = float("nan")
+            if script is None and spec.get("p_inf") and rng.random() < spec["p_inf"]:
+                v = rng.choice([float("inf"), float("-inf")])   # a proper (if extreme) value: ranks first or last among the valid ones
             d = do_result(tid, r, v)
             if d is None:
                 break
@@ -762,6 +766,7 @@ def monitor_c05(trace):
     seen_rungs = set()
     failed = set()
     failed_slots = set()  # (bracket, rung index, trial): the job of that slot failed
+    reported = {}         # (trial, level) -> the metric value the worker reported there (the harness's own record)
     events = _in_contract(trace["events"])
     for ev in events:
         # no call raises (except the assertion against a training script skipping its rung level)
@@ -781,6 +786,10 @@ def monitor_c05(trace):
             failed.add(ev["trial"])  # (a paused trial cannot fail; such calls are ignored by the scheduler)
             if ev.get("slot"):
                 failed_slots.add((ev["slot"][0], ev["slot"][1], ev["trial"]))
+        if ev["ev"] == "result" and ev.get("metric") is not None and not ev.get("late") and ev.get("decision") != "CONTINUE":
+            # (the report that ends the job of a slot; reports below the level of the slot get CONTINUE, reports of a trial
+            # that holds no slot - `late` - are ignored by the scheduler)
+            reported[(ev["trial"], ev["resource"])] = ev["metric"]
         if ev["ev"] == "resume" and ev["trial"] in failed:
             add("c05:failed-trial-promoted",
                 f"failed trial {ev['trial']} was promoted and is resumed to level {ev['level']} (bracket {ev['bracket']})", ev)
@@ -810,6 +819,9 @@ def monitor_c05(trace):
                         elif (b, k) not in seen_rungs:
                             seen_rungs.add((b, k))
                             got = [e[0] for e in content]
+                            # ranked by what the workers reported at this level (not by what the scheduler has stored)
+                            lv_below = br["rungs"][k - 1][0]
+                            below = [[e[0], reported.get((e[0], lv_below), e[1])] for e in below]
                             why = check_top(below, got, mode, {t_ for (b_, k_, t_) in failed_slots if b_ == b and k_ == k - 1})
                             if why is not None:
                                 add("c05:top-list", f"bracket {b}: rung {k} = {got} from rung below {below}: {why}", ev)
